@@ -1,1 +1,2 @@
 from . import tables  # noqa: F401
+from . import loops  # noqa: F401
